@@ -1,3 +1,4 @@
 import MaddyVerif.Props.C01
+import MaddyVerif.Props.C09
 import MaddyVerif.Props.C16
 import MaddyVerif.Props.C17
